@@ -200,6 +200,33 @@ func twinCase(c *core.Ctx, idx int64, nn bool, l, h twinBound, vals []cty.Value,
 		return
 	}
 	rng := u.Range()
+	// the reported bounds are exactly the stated ones (exact comparison, inclusiveness included): with two
+	// sessions that is the tighter, later one
+	for _, side := range []struct {
+		b     twinBound
+		name  string
+		read  func() (cty.Value, bool)
+		other string
+	}{
+		{l, "lower", rng.NumberLowerBound, "NumberLowerBound"},
+		{h, "upper", rng.NumberUpperBound, "NumberUpperBound"},
+	} {
+		if side.b.v == cty.NilVal {
+			continue
+		}
+		var got cty.Value
+		var gotInc bool
+		o := core.Guard(func() { got, gotInc = side.read() })
+		c.Eval(1)
+		c.Count("twin-bounds:reported-bound-checked")
+		switch {
+		case o.Panicked:
+			c.Violate("ValueRange."+side.other, "panic: "+core.PanicClass(o.PanicMsg), "decimal-twin-bounds", desc, o.PanicMsg)
+		case got == cty.NilVal || !got.IsKnown() || got.IsNull() || got.AsBigFloat().Cmp(side.b.v.AsBigFloat()) != 0 || gotInc != side.b.inc:
+			c.Violate("Value.Range", "reported range differs from what the stated constraints imply", side.name+"-bound/decimal-twin-bounds", desc,
+				fmt.Sprintf("stated %s bound %s (inclusive=%v, exact value %s); reported %#v (inclusive=%v)", side.name, side.b.txt, side.b.inc, side.b.v.AsBigFloat().Text('g', 40), got, gotInc))
+		}
+	}
 	for i, p := range vals {
 		pf := p.AsBigFloat()
 		admitted, free := true, false
